@@ -45,7 +45,7 @@ def render_class(spec, ind=0, parent=None):
         out.append('%s@dataclasses.dataclass' % pad)
     flavour = spec.get('flavour', 'plain')
     bases = {'plain': parent or '', 'abc': 'abc.ABC', 'meta': 'metaclass=Meta', 'enum': 'enum.Enum',
-             'protocol': 'typing.Protocol'}[flavour if not parent else 'plain']
+             'protocol': 'typing.Protocol', 'falsy': 'metaclass=FalsyMeta', 'empty': 'metaclass=EmptyMeta'}[flavour if not parent else 'plain']
     out.append('%sclass %s%s:' % (pad, spec['name'], '(%s)' % bases if bases else ''))
     out.append('%s    """doc of %s"""' % (pad, spec['name']))
     if flavour == 'enum' and not parent:
@@ -102,7 +102,10 @@ def load(spec):
     import abc
     import enum
     ns = {'dataclasses': dataclasses, 'typing': typing, 'userdeco': userdeco, '__name__': 'c13mod', 'abc': abc, 'enum': enum,
-          'Meta': type('Meta', (type,), {})}
+          'Meta': type('Meta', (type,), {}),
+          # classes whose truth value is False (a registry-style metaclass with no entries yet): still classes to be decorated
+          'FalsyMeta': type('FalsyMeta', (type,), {'__bool__': lambda cls: False}),
+          'EmptyMeta': type('EmptyMeta', (type,), {'__len__': lambda cls: 0})}
     src = render(spec)
     exec(compile(src, '<c13>', 'exec'), ns)
     return ns, src
@@ -200,7 +203,8 @@ def _cls(name, depth):
         lambda ms: [dict(m, name='%s%d' % (m['kind'][:2], i)) for i, m in enumerate(ms)])
     nested = st.lists(st.deferred(lambda: _cls('N%d' % depth, depth - 1)), max_size=1) if depth > 0 else st.just([])
     # nested classes come in every flavour of metaclass (plain type, ABCMeta, a user metaclass, EnumMeta, the Protocol metaclass)
-    flavour = st.sampled_from(['plain', 'plain', 'abc', 'meta', 'enum', 'protocol']) if depth < 2 else st.just('plain')
+    flavour = st.sampled_from(['plain', 'plain', 'abc', 'meta', 'enum', 'protocol', 'falsy', 'empty']) if depth < 2 else \
+        st.sampled_from(['falsy', 'plain', 'plain', 'plain', 'empty', 'meta', 'abc'])   # the root class: the one handed to beartype() itself
     return st.fixed_dictionaries({'name': st.just(name), 'members': members, 'nested': nested, 'flavour': flavour,
                                   'dataclass': st.booleans() if depth == 2 else st.just(False)})
 
@@ -217,8 +221,10 @@ def _only_where_it_warns(spec, conf):
 
 def strategy(tier):
     return st.fixed_dictionaries({'cls': _cls('K', 2), 'inherit': st.booleans(),
-                                  'conf': st.sampled_from(['warn_on_decor', 'default', 'default', 'On', 'is_debug_off'])}).map(
-        lambda d: {'spec': dict(_only_where_it_warns(d['cls'], d['conf']), inherit=d['inherit']), 'conf': d['conf']})
+                                  'conf': st.sampled_from(['warn_on_decor', 'default', 'default', 'On', 'is_debug_off']),
+                                  # the three spellings of decoration: beartype(conf=c)(K), bare @beartype (default conf), beartype(K, conf=c)
+                                  'entry': st.sampled_from(['bare', 'confed', 'positional'])}).map(
+        lambda d: {'spec': dict(_only_where_it_warns(d['cls'], d['conf']), inherit=d['inherit']), 'conf': d['conf'], 'entry': d['entry']})
 
 
 def _walk(cls, spec, fn, path=''):
@@ -234,6 +240,12 @@ def run_case(case):
             'is_debug_off': BeartypeConf(is_debug=False),
             'warn_on_decor': BeartypeConf(warning_cls_on_decorator_exception=UserWarning)}[case['conf']]
     deco = beartype(conf=conf)
+    entry = case.get('entry', 'confed')
+    if entry == 'bare' and case['conf'] == 'default':
+        deco = beartype
+    elif entry == 'positional':
+        def deco(obj, conf=conf):
+            return beartype(obj, conf=conf)
     fails, seen = [], set()
     nsA, src = load(spec)
     nsB, _ = load(spec)
